@@ -3,6 +3,10 @@
 import json, subprocess
 
 CLAIMED = {
+ "C09": dict(
+   text="Seeded deterministic simulation of the real cp.CommandProcessor with its real dispatchers (1-8), all three placement algorithms (greedy/partition through the verif hook cp.VerifBuild) and the real shared CU resource pool, against stub compute units that declare finite drawn resources and complete work-groups in drawn order after drawn delays, and a scripted driver issuing overlapping launches; online oracle over the CU-facing and driver-facing port histories: every work-group coordinate mapped exactly once, placement inside capacity and disjoint from resident work-groups by an independent interval model, one LaunchKernelRsp per request after the last completion with the right id, resources returned (a final whole-CU probe kernel must be placeable), liveness. Exploration, not proof.",
+   note="Trusted: akita ports as executed, the harness's stub CUs, interval model and oracle; stub CUs batch completions of one kernel only (cross-kernel batching is an emulation-CU behaviour examined on the whole platform); generated work-groups fit an empty CU by a conservative model.",
+   ref="6 (C09)"),
  "C15": dict(
    text="Seeded deterministic simulation of the real rob.ReorderBuffer between a scripted requester, an adversarial memory stub and a control agent over fault-injecting connections; online oracle over the complete port history (order, exactly-once, payload, forwarding, occupancy, flush semantics, liveness at quiescence). Exploration: a clean batch is evidence over the sampled (configuration, schedule, fault sequence) space, not proof.",
    note="Trusted: akita sim.Port/Buffer semantics, the harness's own stubs and oracle; links reliable and FIFO per pair (DESIGN 4.2); request classification around flush/restart as defined in DESIGN C15.",
@@ -38,7 +42,6 @@ PENDING = {
  "C02": "check not built yet (planned: emu-vs-timing differential simulation, DESIGN 6 C02)",
  "C05": "check not built yet (planned: host-schedule exploration under the goroutine controller, DESIGN 6 C05)",
  "C08": "check not built yet (planned: probe kernels on whole platforms, DESIGN 6 C08)",
- "C09": "check not built yet (planned: real CommandProcessor + dispatchers with stub CUs, DESIGN 6 C09)",
  "C10": "check not built yet (planned: seeded driver-API histories against a reference allocator, DESIGN 6 C10)",
  "C11": "check not built yet (planned: copy sequences against a shadow byte array, DESIGN 6 C11)",
  "C12": "check not built yet (planned: driver threads under the controlled goroutine scheduler, DESIGN 6 C12)",
